@@ -9,4 +9,5 @@ if [ -d engine/tmpl ]; then
   (cd engine/tmpl && cargo build --release --offline 2>&1 | tail -2)
 fi
 python3 engine/extract.py quick
+python3 -c "import sys; sys.path.insert(0, \"engine\"); from rules import r_witness; r_witness.base_build(\"/repo\")"
 echo "setup done"
